@@ -101,8 +101,9 @@ def run(cx: Cx):
         for c in calls:
             if c.data.get('via') == 'ctor' and c.data.get('ctor_class') is not None and c.data['ctor_class'].qualname == PC:
                 n_ctor += 1
-                if k != add_agent.qualname:
-                    f = prog.functions.get(k)
+                f = prog.functions.get(k)
+                # a private helper that only add_agent reaches is part of add_agent (walked inline by the placement rule)
+                if k != add_agent.qualname and (f is None or cx.effects.public_roots(f) != {add_agent.qualname}):
                     cx.violation('R-BOUND', k, 'unverified-position-construction',
                                  f"{k} constructs a PositionComponent outside SpaceWorld.add_agent's verified placement: its coordinates "
                                  f"are not bounded by the world's extents", where=cx.where(f, c.line) if f else '')
